@@ -170,6 +170,10 @@ func (d *SiteDef) Reference(seed string, opt Options) *Expect {
 				u = ref
 			}
 			u.Fragment = ""
+			u.Host = strings.ToLower(u.Host)
+			if (u.Scheme == "http" && strings.HasSuffix(u.Host, ":80")) || (u.Scheme == "https" && strings.HasSuffix(u.Host, ":443")) {
+				u.Host = u.Host[:strings.LastIndexByte(u.Host, ':')]
+			}
 			if !inScope(u, opt.ExcludeHosts) {
 				continue
 			}
